@@ -88,10 +88,15 @@ def json_key(x):
 
 def op_history(c):
     """models parsed once and shared; steps = [model index, cfg]; every build: snapshot inputs before/after"""
-    fcs = [buildlib.parse_file(f) for f in c['models']]
+    # share_builder: one Builder instance serves every build of the history (otherwise a new one per build);
+    # drop: every step parses its model afresh and lets go of it afterwards (otherwise parsed once and shared)
+    fcs = None if c.get('drop') else [buildlib.parse_file(f) for f in c['models']]
+    builder = Builder() if c.get('share_builder') else None
     out = []
+    fc = None
     for mi, cfgj in c['steps']:
-        fc = fcs[mi]
+        fc = None
+        fc = buildlib.parse_file(c['models'][mi]) if fcs is None else fcs[mi]
         try:
             cfg = buildlib.mk_cfg(cfgj, fc)
         except Exception as e:  # noqa
@@ -99,7 +104,7 @@ def op_history(c):
             continue
         before = json_key([snap(fc), snap(cfg)])
         try:
-            res = [0, buildlib.files_obs(Builder().build(cfg))]
+            res = [0, buildlib.files_obs((builder or Builder()).build(cfg))]
         except RecursionError:
             res = ['RecursionError']
         except Exception as e:  # noqa
@@ -112,7 +117,41 @@ def op_history(c):
             i = next(k for k in range(min(len(a), len(b))) if a[k] != b[k]) if a[:min(len(a), len(b))] != b[:min(len(a), len(b))] else min(len(a), len(b))
             changed = {'before': a[max(0, i - 150):i + 150], 'after': b[max(0, i - 150):i + 150]}
         out.append({'res': res, 'changed': changed})
+        del cfg
     return out
+
+
+def op_collide(c):
+    """build model A and let go of it; then present model B in a FileContents object that sits at the address A's had, and
+    build that: anything remembered per object identity (id()) across builds shows as a result that belongs to A"""
+    import dataclasses
+    import gc
+    fc_a = buildlib.parse_file(c['models'][0])
+    try:
+        Builder().build(buildlib.mk_cfg(c['cfg_a'], fc_a))
+    except Exception:  # noqa
+        pass
+    addr = id(fc_a)
+    fc_a = None
+    gc.collect()
+    fc_b = buildlib.parse_file(c['models'][1])
+    keep = []
+    hit = None
+    for _ in range(c.get('tries', 4000)):
+        w = dataclasses.replace(fc_b)
+        if id(w) == addr:
+            hit = w
+            break
+        keep.append(w)
+    if hit is None:
+        return {'collided': False}
+    try:
+        res = [0, buildlib.files_obs(Builder().build(buildlib.mk_cfg(c['cfg_b'], hit)))]
+    except RecursionError:
+        res = ['RecursionError']
+    except Exception as e:  # noqa
+        res = exc(e)
+    return {'collided': True, 'res': res}
 
 
 def op_standalone(c):
@@ -121,4 +160,4 @@ def op_standalone(c):
 
 
 from dznpy.adv_shell import Builder  # noqa: E402
-main({'templates': op_templates, 'support': op_support, 'build': op_build, 'history': op_history, 'standalone': op_standalone})
+main({'templates': op_templates, 'support': op_support, 'build': op_build, 'history': op_history, 'collide': op_collide, 'standalone': op_standalone})
